@@ -29,16 +29,16 @@ type Version struct {
 	Name        string
 }
 
-func (v *Version) Version() string                                    { return v.Name }
-func (v *Version) Protocol() protocol.Protocol                        { return v.P }
-func (v *Version) TransactionProcessor() protocol.TxnProcessor        { return v.TxnProc }
-func (v *Version) OperationParser() protocol.OperationParser          { return v.Parser }
-func (v *Version) OperationApplier() protocol.OperationApplier        { return v.Applier }
-func (v *Version) OperationHandler() protocol.OperationHandler        { return v.Handler }
-func (v *Version) OperationProvider() protocol.OperationProvider      { return v.Provider }
-func (v *Version) DocumentComposer() protocol.DocumentComposer        { return v.Composer }
-func (v *Version) DocumentValidator() protocol.DocumentValidator      { return v.Validator }
-func (v *Version) DocumentTransformer() protocol.DocumentTransformer  { return v.Transformer }
+func (v *Version) Version() string                                   { return v.Name }
+func (v *Version) Protocol() protocol.Protocol                       { return v.P }
+func (v *Version) TransactionProcessor() protocol.TxnProcessor       { return v.TxnProc }
+func (v *Version) OperationParser() protocol.OperationParser         { return v.Parser }
+func (v *Version) OperationApplier() protocol.OperationApplier       { return v.Applier }
+func (v *Version) OperationHandler() protocol.OperationHandler       { return v.Handler }
+func (v *Version) OperationProvider() protocol.OperationProvider     { return v.Provider }
+func (v *Version) DocumentComposer() protocol.DocumentComposer       { return v.Composer }
+func (v *Version) DocumentValidator() protocol.DocumentValidator     { return v.Validator }
+func (v *Version) DocumentTransformer() protocol.DocumentTransformer { return v.Transformer }
 
 // AllSigAlgs / AllKeyAlgs enable every supported key type.
 var (
@@ -103,7 +103,9 @@ func (c *Client) Get(t uint64) (protocol.Version, error) {
 }
 
 // SliceStore hands back a fixed slice (the order the "store" returns operations in is the slice's order).
-type SliceStore struct{ Ops []*operation.AnchoredOperation }
+type SliceStore struct {
+	Ops []*operation.AnchoredOperation
+}
 
 func (s *SliceStore) Get(string) ([]*operation.AnchoredOperation, error) {
 	if len(s.Ops) == 0 {
@@ -117,9 +119,9 @@ func (s *SliceStore) Get(string) ([]*operation.AnchoredOperation, error) {
 
 // OpStore is an in-memory operation store keyed by suffix with an optional Put fault gate.
 type OpStore struct {
-	mu      sync.Mutex
-	ops     map[string][]*operation.AnchoredOperation
-	PutErr  func(ops []*operation.AnchoredOperation) error
+	mu       sync.Mutex
+	ops      map[string][]*operation.AnchoredOperation
+	PutErr   func(ops []*operation.AnchoredOperation) error
 	PutCalls int
 }
 
